@@ -33,7 +33,7 @@ STATE_MEASURE = "(policy, db kind, store fault kind, table-coverage class of the
 PROBES = [
     "lookup_tabulated", "lookup_fallback_pass", "lookup_fallback_warning_logged", "lookup_fallback_error_raised", "invalid_policy_config_error", "eop_exception_cached",
     "healed_after_restart", "late_arrival_without_restart", "day_boundary_date", "table_edge_date", "uncovered_date", "twin_equal_and_hash_checked", "range_negative_step",
-    "range_abandoned_then_reiterated", "range_interleaved", "membership_other_scale_near_end", "now_under_clock_jump", "policy_flipped", "db_flipped", "flaky_day_hit", "sub_microsecond_reading_before_tai_midnight", "range_attributes_reassigned", "date_cloned",
+    "range_abandoned_then_reiterated", "range_interleaved", "membership_other_scale_near_end", "now_under_clock_jump", "policy_flipped", "db_flipped", "flaky_day_hit", "sub_microsecond_reading_before_tai_midnight", "range_attributes_reassigned", "date_cloned", "explicit_lookup_in_other_database",
 ]
 REAL_VS_STUB = "real: beyond.dates.date (Date, DateRange, Timescale), beyond.dates.eop (readers, SimpleEopDatabase, EopDb, policies), config; stub: Path seen by eop.py (simulated disk with faults), datetime seen by date.py (virtual wall clock), extra registered databases (zero / flaky / raising); model: sim/models/timescales.py"
 ASSUMPTIONS = [
@@ -88,7 +88,7 @@ def gen_life(rng, first):
         life["fault"] = {"kind": kind, "file": rng.choice(FILES), "line": rng.randrange(16000), "col": rng.randrange(58, 68), "late_arrival_after": rng.choice([None, None, 3])}
     ops = []
     for _ in range(rng.randint(6, 14)):
-        k = rng.choice(["date"] * 6 + ["twin", "twin", "arith", "arith", "order", "now", "range", "range", "config", "clone", "clone"])
+        k = rng.choice(["date"] * 6 + ["twin", "twin", "arith", "arith", "order", "now", "range", "range", "config", "clone", "clone", "other_db"])
         op = {"op": k}
         if k == "date":
             op.update(ctor=rng.choice(["ymd", "mjd_pair", "datetime", "mjd_float", "copy"]), scale=rng.choice(SCALES), day=gen_day(rng), us=gen_us(rng))
@@ -108,10 +108,12 @@ def gen_life(rng, first):
             op.update(a=rng.randrange(8), b=rng.randrange(8))
         elif k == "clone":
             op.update(of=rng.randrange(8), how=rng.choice(["pickle_same", "pickle_other_process", "copy", "deepcopy"]))
+        elif k == "other_db":
+            op.update(db=rng.choice(["raising", "raising", "zero", "nosuchdb", "flaky"]), day=gen_day(rng))
         elif k == "now":
             op.update(clock=[rng.choice([1975, 1999, 2016, 2016, 2030]), rng.randint(1, 12), rng.randint(1, 28), rng.randint(0, 23), rng.randint(0, 59), rng.randint(0, 59), rng.randrange(10**6)], scale=rng.choice(SCALES))
         elif k == "range":
-            step = rng.choice([1, 60, 900, 3600, 86400, 7]) * 10**6 * rng.choice([1, 1, -1])
+            step = rng.choice([10**6, 60 * 10**6, 900 * 10**6, 3600 * 10**6, 86400 * 10**6, 7 * 10**6, 100000, 300000, 700000, 1100000, 15300000]) * rng.choice([1, 1, -1])
             n = rng.randint(0, 12)
             rem = rng.choice([0, 0, abs(step) // 3])
             op.update(
@@ -618,6 +620,29 @@ class World:
         except Exception as e:  # noqa
             if self.policy in ("pass", "warning"):
                 ctx.violate("arithmetic", {"kind": "arithmetic_crashes", "exc": type(e).__name__}, f"{where}: date arithmetic raised {type(e).__name__}: {e}")
+
+    def op_other_db(self, op, where):
+        """EopDb.get(mjd, dbname=<another registered database>): judged like any lookup, and it must leave the configured
+        database alone (the date operations that follow keep being judged against it)."""
+        ctx = self.ctx
+        eop = self.node.mod("beyond.dates.eop")
+        saved = self.dbname
+        self.dbname = op["db"]
+        mjd = float(op["day"]) + 0.25
+
+        class _Shim:  # judge_lookup reads .eop / .datetime / .scale of what fn returns
+            def __init__(self, e):
+                self.eop = e
+                self.datetime = dt_of(int(mjd * ts.US_DAY))
+                self.scale = type("S", (), {"name": "-"})()
+
+        try:
+            if ts.near_leap(self.intact.leaps, mjd):
+                return
+            self.judge_lookup(lambda: _Shim(eop.EopDb.get(mjd, dbname=op["db"])), mjd, where + f" (dbname={op['db']})")
+            ctx.probe("explicit_lookup_in_other_database")
+        finally:
+            self.dbname = saved
 
     def op_clone(self, op, where):
         """A date sent to another process (pickle) or copied denotes the same instant, carries the same corrections and converts alike."""
